@@ -470,16 +470,24 @@ func history(run, steps, conc int, seed int64) ([]map[string]any, error) {
 	for k, v := range rend0 {
 		rend[k] = [][]byte{v}
 	}
-	w, err := sim.NewWorld(sim.WorldOpts{Board: text, Agreement: "agreement"})
+	// "chatonly": a connected user who may neither read nor post news - "announced to all connected users" includes it
+	w, err := sim.NewWorld(sim.WorldOpts{Board: text, Agreement: "agreement", Accounts: []sim.Acct{
+		{Login: "guest", Name: "guest", Access: sim.AccessBits(2, 9, 10, 11, 20, 21, 26, 40)},
+		{Login: "admin", Name: "admin", Password: "admin", Access: sim.DefinedOnly(sim.AllAccess())},
+		{Login: "chatonly", Name: "chatonly", Access: sim.AccessBits(9, 10)}}})
 	if err != nil {
 		return nil, err
 	}
 	defer w.Close()
-	n := 3
+	n := 4
 	clients := make([]*sim.Client, n)
 	for i := range clients {
 		c := w.Dial("")
-		if _, err := c.Login(sim.LoginOpts{Login: "admin", Password: "admin", Name: fmt.Sprintf("user%d", i+1), Old: true}); err != nil {
+		login, pw := "admin", "admin"
+		if i == n-1 {
+			login, pw = "chatonly", "" // only listens (never chosen as poster or reader below)
+		}
+		if _, err := c.Login(sim.LoginOpts{Login: login, Password: pw, Name: fmt.Sprintf("user%d", i+1), Old: true}); err != nil {
 			return nil, err
 		}
 		clients[i] = c
@@ -497,7 +505,7 @@ func history(run, steps, conc int, seed int64) ([]map[string]any, error) {
 	var lastBody []byte
 	lastCi := 0
 	for s := 0; s < steps; s++ {
-		ci := rng.Intn(n)
+		ci := rng.Intn(n - 1)
 		c := clients[ci]
 		if rng.Intn(3) > 0 && total < 60000-reserve {
 			var body []byte
